@@ -1,0 +1,72 @@
+//go:build verif
+// +build verif
+
+package gocql
+
+import "net"
+
+// Add-only access for the C05 harness (second part): schema-row compilation, token ring construction.
+
+// VerifC05CompileMetadata runs compileMetadata (metadata.go) on one table whose schema rows carry the given
+// validator / comparator / default_validator strings, as the schema refresh does with rows of
+// system.schema_columnfamilies / system.schema_columns.  site: 0 = column validator, 1 = table default_validator
+// (protocol 1 path), 2 = table comparator, 3 = key validator, 4 = all of them.
+func VerifC05CompileMetadata(proto int, site int, def string) {
+	const utf8 = "org.apache.cassandra.db.marshal.UTF8Type"
+	ks := &KeyspaceMetadata{Name: "ks"}
+	tbl := TableMetadata{Keyspace: "ks", Name: "t", KeyValidator: utf8, Comparator: utf8, DefaultValidator: utf8,
+		KeyAliases: []string{"k"}, ColumnAliases: []string{"c1"}, ValueAlias: "v"}
+	var columns []ColumnMetadata
+	switch site {
+	case 0:
+		columns = []ColumnMetadata{{Keyspace: "ks", Table: "t", Name: "c", Kind: ColumnRegular, Validator: def},
+			{Keyspace: "ks", Table: "t", Name: "k", Kind: ColumnPartitionKey, Validator: def},
+			{Keyspace: "ks", Table: "t", Name: "ck", Kind: ColumnClusteringKey, Validator: def}}
+	case 1:
+		tbl.DefaultValidator = def
+	case 2:
+		tbl.Comparator = def
+	case 3:
+		tbl.KeyValidator = def
+	default:
+		tbl.DefaultValidator, tbl.Comparator, tbl.KeyValidator = def, def, def
+		columns = []ColumnMetadata{{Keyspace: "ks", Table: "t", Name: "c", Kind: ColumnRegular, Validator: def}}
+	}
+	compileMetadata(proto, ks, []TableMetadata{tbl}, columns, nil, nil, nil, nil, nopLogger{})
+}
+
+// VerifC05CompileAggregate runs compileMetadata with function rows named funcs and one aggregate row naming
+// stateFunc / finalFunc (rows of system_schema.functions / system_schema.aggregates).
+func VerifC05CompileAggregate(funcs []string, stateFunc, finalFunc string) {
+	ks := &KeyspaceMetadata{Name: "ks"}
+	fs := make([]FunctionMetadata, len(funcs))
+	for i, f := range funcs {
+		fs[i] = FunctionMetadata{Keyspace: "ks", Name: f}
+	}
+	aggs := []AggregateMetadata{{Keyspace: "ks", Name: "agg", stateFunc: stateFunc, finalFunc: finalFunc}}
+	compileMetadata(4, ks, nil, nil, fs, aggs, nil, nil, nopLogger{})
+}
+
+// VerifC05HostRing: hostInfoFromIter on a system.local / system.peers row, then the token ring the
+// token-aware policy builds from that host (newTokenRing with the row's partitioner, or the given one when the
+// row has none) and a lookup in it.
+func VerifC05HostRing(it *Iter, partitioner string) error {
+	s := &Session{cfg: ClusterConfig{Port: 9042}, logger: nopLogger{}}
+	h, err := s.hostInfoFromIter(it, net.IPv4(10, 0, 0, 1), 9042)
+	if err != nil {
+		return err
+	}
+	if h.partitioner != "" {
+		partitioner = h.partitioner
+	}
+	other := &HostInfo{hostId: "other", connectAddress: net.IPv4(10, 0, 0, 2), tokens: h.tokens}
+	tr, err := newTokenRing(partitioner, []*HostInfo{h, other})
+	if err != nil {
+		return err
+	}
+	if tr.partitioner != nil && len(tr.tokens) > 0 {
+		tr.GetHostForToken(tr.partitioner.Hash([]byte("key")))
+		_ = tr.String()
+	}
+	return nil
+}
